@@ -112,6 +112,7 @@ class Check:
         if name not in self.prog.consts:
             self.missing(rule, name, "const item")
             raise AnchorMissing(name)
+        self.prog.touched_consts.add(name)
         return self.prog.consts[name]["value"]
 
     def adt(self, name, rule="anchor"):
@@ -125,8 +126,14 @@ class Check:
     def run_rule(self, fn, *args):
         name = fn.__name__
         self.rules_run.append(name)
+        saved = self.prog.inlining
+        if getattr(fn, "raw_bodies", False):
+            self.prog.inlining = False      # inventories are keyed per function: no splicing
         try:
-            fn(self, *args)
+            try:
+                fn(self, *args)
+            finally:
+                self.prog.inlining = saved
         except AnchorMissing:
             pass
         except Exception as e:  # fail closed: an unexpected MIR shape is reported, never ignored
@@ -181,8 +188,11 @@ def finish(ck, t0, facts_info, cmd, level_text=""):
         "samples": ck.samples[:40] if ck.samples else [o.as_json() for o in ck.obs[:10]],
         "units_analysed": ["%s%s%s" % (u[0], " (test)" if u[2] else "", " (duplicate host build)" if u[3] else "") for u in units],
         "functions_in_fact_base": len(ck.prog.bodies),
+        "functions_looked_up_by_name": len(getattr(ck.prog, "touched_bodies", ())),
+        "constants_looked_up_by_name": len(getattr(ck.prog, "touched_consts", ())),
         "facts": facts_info,
         "build_configurations_analysed": ck.configs,
+        "helpers_inlined": {k: v for k, v in sorted(getattr(ck.prog, "inlined_helpers", {}).items())},
         "exhaustive": False,
         "failed": [o.as_json() for o in failed][:50],
         "known_findings_matched": [o.full_key() for o in listed],
